@@ -11,7 +11,9 @@ const RX_MAX: usize = 2;
 // ------------------------------------------------------------------------------------------------ PHY
 struct NondetPhy {
     transmitting: bool,
-    pending: usize,
+    pending: usize,        // bytes pending when the poll starts
+    pending_after: usize,  // bytes still pending once the receive helpers ran (they consume telegrams and drop garbage, C16)
+    rx_called: bool,
     n_rx: usize,
     delivered: usize,
     trailing: bool,       // undecoded bytes remain behind the last complete telegram
@@ -28,10 +30,12 @@ struct NondetPhy {
 }
 
 fn any_phy() -> NondetPhy {
-    let p = NondetPhy { transmitting: kani::any(), pending: kani::any(), n_rx: kani::any(), delivered: 0, trailing: kani::any(),
+    let p = NondetPhy { transmitting: kani::any(), pending: kani::any(), pending_after: kani::any(), rx_called: false, n_rx: kani::any(), delivered: 0, trailing: kani::any(),
         tx_count: 0, txbuf: [0; 256], tx_len: 0, rx_was_token_to: [0xff; RX_MAX], rx_kind: [0xff; RX_MAX], rx_sa: [0; RX_MAX], rx_da: [0; RX_MAX],
         rx_fc_resp: [false; RX_MAX], rx_status_ok_master: [false; RX_MAX], rx_is_status_req: [false; RX_MAX] };
-    kani::assume(p.n_rx <= RX_MAX && p.pending < 100_000);
+    kani::assume(p.n_rx <= RX_MAX && p.pending < 100_000 && p.pending_after <= p.pending);
+    // a complete telegram that is handed out has been consumed
+    kani::assume(p.n_rx == 0 || p.pending_after < p.pending);
     // a complete telegram is at least one byte; nothing can be received while we transmit
     kani::assume(p.n_rx == 0 || p.pending > 0);
     kani::assume(!p.trailing || p.pending > 0);
@@ -40,6 +44,7 @@ fn any_phy() -> NondetPhy {
 }
 
 impl NondetPhy {
+    fn pending_now(&self) -> usize { if self.rx_called { self.pending_after } else { self.pending } }
     /// next decoded telegram as the decoder contract (C10.spec) allows: SC | token with any address bytes | data with 7-bit addresses
     fn next_telegram<'a>(&mut self, pdu: &'a [u8]) -> crate::fdl::Telegram<'a> {
         let i = self.delivered;
@@ -74,7 +79,7 @@ impl crate::phy::ProfibusPhy for NondetPhy {
     fn transmit_data<F, R>(&mut self, _now: crate::time::Instant, f: F) -> R where F: FnOnce(&mut [u8]) -> (usize, R) {
         assert!(!self.transmitting);
         let (n, r) = f(&mut self.txbuf);
-        if n > 0 { self.tx_count += 1; self.tx_len = n; }
+        if n > 0 { self.tx_count += 1; self.tx_len = n; self.transmitting = true; }
         r
     }
     fn transmit_telegram<F>(&mut self, _now: crate::time::Instant, f: F) -> Option<crate::fdl::TelegramTxResponse>
@@ -82,20 +87,22 @@ impl crate::phy::ProfibusPhy for NondetPhy {
         // contract of the generic helper (C16.tx): the closure gets the transmit buffer once; bytes_sent bytes go out
         assert!(!self.transmitting);
         let r = f(crate::fdl::TelegramTx::new(&mut self.txbuf));
-        if let Some(resp) = &r { self.tx_count += 1; self.tx_len = resp.bytes_sent(); }
+        if let Some(resp) = &r { self.tx_count += 1; self.tx_len = resp.bytes_sent(); self.transmitting = true; }
         r
     }
     fn receive_data<F, R>(&mut self, _now: crate::time::Instant, f: F) -> R where F: FnOnce(&[u8]) -> (usize, R) {
         assert!(!self.transmitting);
         f(&[]).1
     }
-    fn poll_pending_received_bytes(&mut self, _now: crate::time::Instant) -> usize { assert!(!self.transmitting); self.pending }
+    fn poll_pending_received_bytes(&mut self, _now: crate::time::Instant) -> usize { assert!(!self.transmitting); self.pending_now() }
     fn receive_telegram<F, R>(&mut self, _now: crate::time::Instant, f: F) -> Option<R> where F: FnOnce(crate::fdl::Telegram) -> R {
         assert!(!self.transmitting);
+        self.rx_called = true;
         if self.delivered < self.n_rx { let pdu = [0u8; 0]; let t = self.next_telegram(&pdu); Some(f(t)) } else { None }
     }
     fn receive_all_telegrams<F, R>(&mut self, _now: crate::time::Instant, mut f: F) -> Option<R> where F: FnMut(crate::fdl::Telegram, bool) -> R {
         assert!(!self.transmitting);
+        self.rx_called = true;
         let mut res = None;
         while self.delivered < self.n_rx {
             let is_last = self.delivered + 1 == self.n_rx && !self.trailing;
@@ -257,7 +264,7 @@ fn step(kind: u8) -> (FdlActiveStation, FdlActiveStation, NondetPhy, crate::time
         None => now,
         Some(l) => if phy.pending > f0.pending_bytes && now > l { now } else { l },
     };
-    let busy0 = phy.transmitting || f0.last_bus_activity.map(|l| now <= l).unwrap_or(false);
+    let busy0 = (phy.transmitting && phy.tx_count == 0) || f0.last_bus_activity.map(|l| now <= l).unwrap_or(false);
     if busy0 {
         // C01.no-tx-while-busy
         assert!(phy.tx_count == 0 && f.state == f0.state && phy.delivered == 0);
@@ -265,8 +272,16 @@ fn step(kind: u8) -> (FdlActiveStation, FdlActiveStation, NondetPhy, crate::time
     // C01 bus-activity tracking: received telegrams reset the pending-byte counter (otherwise the first bytes of the
     // next telegram would not be noticed as bus activity); new pending bytes are accounted for exactly once
     if !busy0 {
+        let accounted = if phy.pending > f0.pending_bytes { phy.pending } else { f0.pending_bytes };
         if phy.delivered >= 1 { assert!(f.pending_bytes == 0); }
-        else if !matches!(f.state, State::Offline) { assert!(f.pending_bytes == if phy.pending > f0.pending_bytes { phy.pending } else { f0.pending_bytes }); }
+        else if matches!(f.state, State::Offline) { }
+        else if phy.tx_count == 1 { assert!(f.pending_bytes == accounted); }
+        else {
+            // C01.activity-inv: bytes the PHY dropped (garbage) are forgotten, so that the next byte on the bus is
+            // noticed as activity: the accounted count never exceeds what is pending in the PHY when the poll ends
+            assert!(f.pending_bytes <= phy.pending_now());
+            assert!(f.pending_bytes == accounted.min(phy.pending_now()));
+        }
         if phy.delivered >= 1 && phy.tx_count == 0 && !matches!(f.state, State::Offline) {
             // reception is bus activity "now"
             assert!(f.last_bus_activity == Some(match f0.last_bus_activity { Some(l) if l > now => l, _ => now }));
@@ -413,7 +428,7 @@ step_harness!(fdl_step_use_token, 3, |f0, f, phy, now, apps, napps| {
     assert!(removed() == 0 && sent_token(phy).is_none());
     assert!(matches!(f.state, State::UseToken { .. } | State::AwaitDataResponse { .. } | State::PassToken { .. }));
     let (data0, fcd0) = match f0.state { State::UseToken { data, first_cycle_done } => (data, first_cycle_done), _ => unreachable!() };
-    let busy0 = phy.transmitting || f0.last_bus_activity.map(|l| now <= l).unwrap_or(false);
+    let busy0 = (phy.transmitting && phy.tx_count == 0) || f0.last_bus_activity.map(|l| now <= l).unwrap_or(false);
     if busy0 { return; }
     // C13.deadline: on the first poll of a token visit the end of the hold time is the previous token time + TTR (minus the GAP reserve)
     if f0.last_token_time != data0.token_time {
@@ -459,7 +474,7 @@ step_harness!(fdl_step_await_data, 4, |f0, f, phy, now, apps, napps| {
     assert!(removed() == 0 && sent_token(phy).is_none());
     let me = &apps[f0.next_application.min(1)];
     let other = &apps[1 - f0.next_application.min(1)];
-    let busy0 = phy.transmitting || f0.last_bus_activity.map(|l| now <= l).unwrap_or(false);
+    let busy0 = (phy.transmitting && phy.tx_count == 0) || f0.last_bus_activity.map(|l| now <= l).unwrap_or(false);
     // at most one of reply / time-out, only to the sender
     assert!(me.rx_calls + me.to_calls <= 1 && other.rx_calls == 0 && other.to_calls == 0);
     if !busy0 && phy.n_rx >= 1 {
@@ -529,7 +544,7 @@ step_harness!(fdl_step_check_token_pass, 6, |f0, f, phy, now, apps, _n| {
     let ts = f0.p.address;
     let attempt0 = match f0.state { State::CheckTokenPass { attempt } => attempt, _ => unreachable!() };
     assert!(apps[0].tx_calls + apps[1].tx_calls == 0 && sent_data(phy).is_none());
-    let busy0 = phy.transmitting || f0.last_bus_activity.map(|l| now <= l).unwrap_or(false);
+    let busy0 = (phy.transmitting && phy.tx_count == 0) || f0.last_bus_activity.map(|l| now <= l).unwrap_or(false);
     if !busy0 {
         if slot_expired(f0, phy, now) {
             // nothing heard for a slot time: resend to the same NS twice, then drop it
@@ -556,7 +571,7 @@ step_harness!(fdl_step_await_status, 7, |f0, f, phy, now, apps, _n| {
     let ts = f0.p.address;
     let address = match f0.state { State::AwaitStatusResponse { address } => address, _ => unreachable!() };
     assert!(apps[0].tx_calls + apps[1].tx_calls == 0 && removed() == 0 && sent_data(phy).is_none());
-    let busy0 = phy.transmitting || f0.last_bus_activity.map(|l| now <= l).unwrap_or(false);
+    let busy0 = (phy.transmitting && phy.tx_count == 0) || f0.last_bus_activity.map(|l| now <= l).unwrap_or(false);
     if !busy0 && phy.n_rx >= 1 {
         assert!(phy.delivered == 1 && phy.tx_count == 0);
         let from_polled = phy.rx_kind[0] == 2 && phy.rx_sa[0] == address && phy.rx_da[0] == ts && phy.rx_fc_resp[0];
